@@ -1,12 +1,34 @@
 /-
-  C02 — decoders never panic, hang, over-read or mutate on arbitrary input (binary generic layer).
+  C02 — decoders never panic, hang, over-read or mutate on arbitrary input (binary decoder).
 
-  The model keeps the Go panic primitives visible (`goU32`, `goU64`, `goIndex`, `goBytesToBigInt`
-  return `.panic` on short input), so "never panics" is a theorem about the guards of the reader.
-  All functions are total (fuel-bounded) and pure, so they neither hang nor mutate their input; the
-  extent theorems say that the raw items are taken from inside the input and do not overlap.
+  Two models of the binary reader, and what each is for:
+
+  * `Model/Reader.lean` (abstract): `rawParse` folds `validate` and all slice expressions of the reader
+    into total list functions; only the value conversions keep a panic branch (`goU32`, `goU64`, `goIndex`,
+    `goBytesToBigInt`). Theorems 1–8 below are about THIS model: they prove that the LENGTH GUARDS precede
+    the conversions (fixed-width getters, BigInteger) and that the typed layer never decodes into something
+    it cannot decode (schema condition). About slicing they prove nothing — there is nothing left to guard.
+  * `Model/ReaderGo.lean` (slice level): one definition per Go method over a model of Go slices with
+    length AND capacity; every index / slice expression panics when out of range, a re-slice beyond `len`
+    within `cap` silently hands out foreign bytes, `validate` is separate, Go's `int` has a width.
+    Theorems 9–14 are about this model and connect it to the abstract one: no panic, no content from
+    beyond `len` or beyond the declared extent of a structure, for `int` of 34 bits or more; a PANIC WITNESS
+    for 32-bit `int` (genuine defect of the library on GOARCH=386/arm); the repaired `validate` on every
+    platform.
+
+  Termination: the recursive definitions carry a fuel argument. Theorems F1–F4 show that for EVERY input
+  the fuel used by the model (`bs.length`, `bs.length + 2`) is never what ends a computation (no
+  fuel-exhaustion answer, same answer for any larger fuel), so every modelled loop / recursion ends because
+  the input ends. This is a statement about the MODEL's loops (generic decoder and reader); that the Go
+  loops are these loops is what the correspondence engines and the harness watchdog check.
+
+  Not in any theorem: the input buffer being left unmodified and the second decode being equal (the model
+  is a pure function: it cannot express the opposite) — checked on the real code by the oracles
+  `input-unmodified` / `deterministic`; the XML and JSON decoders (oracles of the text, vectors, lex and
+  hostile engines; `Model/Lex.lean` is a lexical model without panic branches).
 -/
 import KmipModel.Lemmas.ReaderLemmas
+import KmipModel.Lemmas.ReaderGoLemmas
 import KmipModel.Lemmas.PlanLemmas
 import KmipModel.Gen.Schema
 import KmipModel.Props.C03
@@ -83,7 +105,150 @@ theorem rawParse_encList_eq (ts : List Item) (h : Item.AllInRange ts) (fuel : Na
     (hf : ts.length ≤ fuel) : rawParse fuel (encList ts) = (ts.map Item.raw, none) :=
   rawParse_encList ts h fuel hf
 
+/-! ## The slice-level reader (`Model/ReaderGo.lean`) -/
+
+/-- 9. REFINEMENT, method by method: on a validated reader (`validate` returned nil, no `int` wrap-around)
+    each method of the slice-level reader — with its explicit, panicking `buf[..]` expressions — has the
+    same outcome as the abstract method and leaves a validated reader that corresponds to the abstract
+    cursor. `G.Sim` relates panics to panics only, so with theorems 1a/1b none of them panics. These are
+    exactly the methods of the Go `reader` interface the typed decoders are written against. -/
+theorem reader_methods_refine (cfg : GoCfg) (b : GoSlice) (hv : G.Valid cfg b) (tag : Nat) :
+    G.tag b = .ok (Cur.ofBytes b.vis).tag ∧ G.type b = .ok (Cur.ofBytes b.vis).ty ∧
+    G.Sim cfg (G.integer cfg b tag) ((Cur.ofBytes b.vis).integer tag) ∧
+    G.Sim cfg (G.longInteger cfg b tag) ((Cur.ofBytes b.vis).longInteger tag) ∧
+    G.Sim cfg (G.enum cfg b tag) ((Cur.ofBytes b.vis).enum tag) ∧
+    G.Sim cfg (G.bool cfg b tag) ((Cur.ofBytes b.vis).bool tag) ∧
+    G.Sim cfg (G.dateTime cfg b tag) ((Cur.ofBytes b.vis).dateTime tag) ∧
+    G.Sim cfg (G.interval cfg b tag) ((Cur.ofBytes b.vis).interval tag) ∧
+    G.Sim cfg (G.bigInteger cfg b tag) ((Cur.ofBytes b.vis).bigInteger tag) ∧
+    G.Sim cfg (G.textString cfg b tag) ((Cur.ofBytes b.vis).textString tag) ∧
+    G.Sim cfg (G.byteString cfg b tag) ((Cur.ofBytes b.vis).byteString tag) :=
+  ⟨G.tag_of_valid hv, G.type_of_valid hv, G.integer_sim hv tag, G.longInteger_sim hv tag, G.enum_sim hv tag,
+    G.bool_sim hv tag, G.dateTime_sim hv tag, G.interval_sim hv tag, G.bigInteger_sim hv tag,
+    G.textString_sim hv tag, G.byteString_sim hv tag⟩
+
+/-- 9'. `newTTLVReader` establishes the validated state or returns the abstract parser's error, and
+    `Struct` agrees with the abstract `Struct` for every callback that agrees on validated readers whose
+    capacity ends with the declared value. -/
+theorem reader_struct_refines {α : Type} (cfg : GoCfg) (b : GoSlice) (hv : G.Valid cfg b) (tag : Nat)
+    (f : GoSlice → Res α) (f' : Cur → Res α)
+    (hf : ∀ inner : GoSlice, G.Valid cfg inner → inner.rest = [] →
+      inner.vis.length ≤ b.vis.length - 8 → SimV (f inner) (f' (Cur.ofBytes inner.vis))) :
+    G.Sim cfg (G.struct cfg b tag f) ((Cur.ofBytes b.vis).struct tag f') :=
+  G.struct_sim hv tag f f' hf
+
+theorem reader_validate_refines (cfg : GoCfg) (b : GoSlice) (hok : cfg.Ok b.vis.length) :
+    G.validate cfg b = match headErr b.vis with
+      | none => .ok ()
+      | some e => .err e :=
+  G.validate_eq cfg b hok
+
+/-- 10. the nested reader of a structure can reach NOTHING outside the structure's declared extent: its
+    capacity equals its length (so any access beyond it is one of the panics excluded by 11), for every
+    buffer, valid or not. -/
+theorem struct_capacity_clipped {α : Type} (cfg : GoCfg) (b : GoSlice) (tag : Nat) (f : GoSlice → Res α) :
+    G.struct cfg b tag f
+      = G.struct cfg b tag (fun inner => if inner.rest = [] then f inner else .panic "capacity not clipped") :=
+  G.struct_inner_clipped cfg b tag f
+
+/-- 11. `UnmarshalTTLV(data, &ttlv.Value{})` over the slice-level reader, on a platform whose `int` has at
+    least 34 bits: for EVERY byte string and EVERY content of the memory between `len(data)` and `cap(data)`
+    the result is the abstract decoder's result on `data[0:len]` — -/
+theorem slice_level_refines (cfg : GoCfg) (hw : cfg.wide = false) (hb : 34 ≤ cfg.intBits) (bs junk : Bytes) :
+    G.unmarshalValue cfg { vis := bs, rest := junk } = unmarshalValue bs :=
+  (G.unmarshalValue_sim cfg _ (GoCfg.ok_of_bits cfg hw hb _)).eq (unmarshalValue_noPanic bs)
+
+/-- 11a. — hence no index or slice expression of the reader panics, -/
+theorem slice_level_no_panic (bs junk : Bytes) :
+    ∀ msg, G.unmarshalValue GoCfg.amd64 { vis := bs, rest := junk } ≠ .panic msg := by
+  rw [slice_level_refines GoCfg.amd64 rfl (by decide)]
+  exact unmarshalValue_noPanic bs
+
+/-- 11b. — and nothing is taken from outside the input: the result does not depend on what follows it in
+    memory (in this model a read beyond `len` within `cap` is possible and would show here). -/
+theorem slice_level_no_over_read (bs junk junk' : Bytes) :
+    G.unmarshalValue GoCfg.amd64 { vis := bs, rest := junk }
+      = G.unmarshalValue GoCfg.amd64 { vis := bs, rest := junk' } := by
+  rw [slice_level_refines GoCfg.amd64 rfl (by decide), slice_level_refines GoCfg.amd64 rfl (by decide)]
+
+/-- 12. FULL STATEMENT for the reader as it is: no panic on any platform. FALSE — -/
+def C02_binary_any_platform : Prop :=
+  ∀ (cfg : GoCfg), cfg.wide = false → 32 ≤ cfg.intBits → ∀ (bs junk : Bytes) (msg : String),
+    G.unmarshalValue cfg { vis := bs, rest := junk } ≠ .panic msg
+
+/-- 12a. — with a 32-bit `int` the 8-byte input `42 00 78 01 80 00 00 00` (a structure announcing 2^31
+    bytes) makes `len()` negative, passes `validate`, and panics in `value()`: `buf[8 : 8+len]`. Confirmed
+    on the real library built for GOARCH=386 (engine `hostile`, phase arch32). -/
+theorem int32_panics :
+    (G.unmarshalValue GoCfg.i386 { vis := [0x42, 0, 0x78, 1, 0x80, 0, 0, 0], rest := [] }).isPanic = true := by
+  decide +kernel
+
+theorem C02_binary_any_platform_false : ¬ C02_binary_any_platform := by
+  intro h
+  have hp := int32_panics
+  cases hr : G.unmarshalValue GoCfg.i386 { vis := [0x42, 0, 0x78, 1, 0x80, 0, 0, 0], rest := [] } with
+  | ok _ => rw [hr] at hp; cases hp
+  | err _ => rw [hr] at hp; cases hp
+  | panic m => exact h GoCfg.i386 rfl (by decide) _ _ m hr
+
+/-- 13. the PARTIAL statement that holds of the reader as it is: every platform with `int` ≥ 34 bits. -/
+theorem C02_binary_partial (cfg : GoCfg) (hw : cfg.wide = false) (hb : 34 ≤ cfg.intBits) (bs junk : Bytes) :
+    ∀ msg, G.unmarshalValue cfg { vis := bs, rest := junk } ≠ .panic msg := by
+  rw [slice_level_refines cfg hw hb]
+  exact unmarshalValue_noPanic bs
+
+/-- 14. the repaired `validate` (length field compared in 64-bit unsigned arithmetic): the same refinement
+    on EVERY platform, for every buffer whose length is an `int` (as every Go slice's is). -/
+theorem wide_validate_any_platform (cfg : GoCfg) (hw : cfg.wide = true) (hb : 1 ≤ cfg.intBits) (bs junk : Bytes)
+    (hlen : bs.length < 2 ^ (cfg.intBits - 1)) :
+    G.unmarshalValue cfg { vis := bs, rest := junk } = unmarshalValue bs :=
+  (G.unmarshalValue_sim cfg _ (GoCfg.ok_wide cfg hw hb _ hlen)).eq (unmarshalValue_noPanic bs)
+
+/-! ## Termination of the modelled loops: the fuel never decides -/
+
+/-- F1. `rawParse` (the `validate`/`Next` walk): same answer for every fuel ≥ the input length, and never
+    the fuel-exhaustion answer. -/
+theorem rawParse_fuel_irrelevant (fuel : Nat) (bs : Bytes) (h : bs.length ≤ fuel) :
+    rawParse fuel bs = rawParse bs.length bs ∧ (rawParse fuel bs).2 ≠ some .other :=
+  ⟨rawParse_fuel fuel bs h, rawParse_not_fuel fuel bs h⟩
+
+/-- F2. the generic value decoder and the structure loop: same answer for every sufficient fuel (two more
+    than the current item's length / one more than the bytes of the remaining items). -/
+theorem decode_fuel_irrelevant (c : Cur) (tag f1 f2 : Nat) :
+    (c.headLen + 2 ≤ f1 → c.headLen + 2 ≤ f2 → decodeValue f1 c tag = decodeValue f2 c tag) ∧
+    (c.bytes + 1 ≤ f1 → c.bytes + 1 ≤ f2 → decodeFields f1 c = decodeFields f2 c) :=
+  ⟨decodeValue_fuel c tag f1 f2, decodeFields_fuel c f1 f2⟩
+
+/-- F3. `unmarshalValue bs` is the decoder run with ANY fuel ≥ `bs.length + 2` … -/
+theorem unmarshalValue_fuel_irrelevant (bs : Bytes) (fuel : Nat) (h : bs.length + 2 ≤ fuel) :
+    unmarshalValue bs = (do let c ← Cur.start bs; let (it, _) ← decodeValue fuel c c.tag; pure it) :=
+  unmarshalValue_fuel bs fuel h
+
+/-- F4. … and for EVERY byte string its answer is not the fuel-exhaustion error (`Err.other` is produced
+    nowhere else in `Model/Reader.lean`): every recursion of the model ends because the input ends. -/
+theorem unmarshalValue_never_fuel (bs : Bytes) : unmarshalValue bs ≠ .err .other :=
+  unmarshalValue_notFuel bs
+
 /-! ### non-vacuity -/
+
+/-- the slice model can express an over-read: re-slicing a 1-byte slice of capacity 2 up to 2 succeeds … -/
+example : (GoSlice.slice { vis := [1], rest := [2] } 0 2).isOk = true := by decide +kernel
+/-- … `value()` of the first of two items has the second one within its capacity (16 more bytes) … -/
+example : ((G.value GoCfg.amd64 { vis := [0x42, 0, 1, 7, 0, 0, 0, 1, 0x41, 0, 0, 0, 0, 0, 0, 0,
+                                          0x42, 0, 2, 7, 0, 0, 0, 1, 0x42, 0, 0, 0, 0, 0, 0, 0], rest := [] }).isOk
+    && (match G.value GoCfg.amd64 { vis := [0x42, 0, 1, 7, 0, 0, 0, 1, 0x41, 0, 0, 0, 0, 0, 0, 0,
+                                            0x42, 0, 2, 7, 0, 0, 0, 1, 0x42, 0, 0, 0, 0, 0, 0, 0], rest := [] } with
+        | .ok v => v.vis.length == 1 && v.rest.length == 23
+        | _ => false)) = true := by decide +kernel
+/-- … and after the clip of `Struct` the same re-slice panics instead of reading on. -/
+example : (do let c ← GoSlice.slice3 { vis := [1], rest := [2] } 0 1 1; c.slice 0 2 : Res GoSlice).isPanic = true := by
+  decide +kernel
+/-- the validated state is reachable (`Valid` is not vacuous): a 16-byte Integer item. -/
+example : G.Valid GoCfg.amd64 { vis := [0x42, 0, 1, 2, 0, 0, 0, 4, 0, 0, 0, 7, 0, 0, 0, 0], rest := [9] } :=
+  ⟨by decide +kernel, GoCfg.ok_of_bits _ rfl (by decide) _⟩
+/-- the repaired `validate` rejects the 32-bit witness instead of panicking. -/
+example : (G.unmarshalValue { intBits := 32, wide := true }
+    { vis := [0x42, 0, 0x78, 1, 0x80, 0, 0, 0], rest := [] }).isErr = true := by decide +kernel
 
 theorem sample_inRange : C03.sample.InRange := by
   have e1 : (encodeBig (-128)).length = 8 := by
